@@ -262,6 +262,7 @@ def run(chk):
     if not quick and r['ok'] and not coqchk(chk):
         r = dict(r, ok=False, log=r['log'] + '\ncoqchk rejected the compiled proofs')
     impl, model = build(chk)
+    G.anchor_drift(vlib, chk)
     chk.cov['trusted_base'] += ['extraction: ExtrOcamlBasic only, no Extract Constant/Inductive of our own',
                                 'ocaml/driver_c06.ml (parse + print), harness/c05_probe.c + c05_asm.S (assembly trampoline), '
                                 'tools/gen_c05_cases.py, tools/gen_c06_cases.py (MIR text generation, image construction and comparison), '
